@@ -316,6 +316,9 @@ func DeepCases() []*Case {
 				if (inner == "oneof-arm-scalar" || inner == "exposed-oneof") && (l != Single || k == KFlatten) {
 					continue
 				}
+				if inner == "plain-oneof-named-type" && (k == KObject || k == KFlatten) {
+					continue
+				}
 				for _, outer := range outers {
 					c := buildContext(k, l, inner)
 					if c == nil {
